@@ -1,2 +1,4 @@
 import NiVerif.DriverCore
 import NiVerif.Props.C02
+import NiVerif.Props.C03
+import NiVerif.Props.C04
